@@ -9,13 +9,20 @@ type ScriptOpts struct {
 	MaxInstr    int  // 1..MaxInstr instructions
 	AllowReturn bool // OP_RETURN may appear as an opcode
 	NonMinimal  bool // non-minimal push forms and zero-length PUSHDATA1/2/4 may appear
-	Big         bool // rare (1 in 3000 pushes) pushes of 65535 / 65536 / 65537 bytes
+	Big         bool // rare (about 1 in 1000 pushes) pushes of 65535 / 65536 / 65537 bytes
 	OneByte     bool // one-byte direct pushes may appear
 }
 
 // hot non-push opcodes: small ints, flow control, OP_RETURN, template opcodes, edge values.
 var hotOps = []byte{0x00, 0x4f, 0x50, 0x51, 0x52, 0x60, 0x61, 0x63, 0x64, 0x65, 0x66, 0x67, 0x68, 0x69, 0x6a, 0x6a,
 	0x75, 0x76, 0x87, 0x88, 0xa9, 0xab, 0xac, 0xad, 0xae, 0xaf, 0xb1, 0xba, 0xfa, 0xff}
+
+// Rare is true about once in a thousand draws. rapid's integer generators are heavily
+// biased towards the ends of their range (IntRange(0, n) yields 0 roughly one time in
+// ten whatever n is), so a rare event must be keyed to a value in the middle of the range.
+func Rare(t *rapid.T, label string) bool {
+	return rapid.IntRange(0, 255).Draw(t, label) == 173
+}
 
 // NonPushOp draws an opcode outside 0x01..0x4e.
 func NonPushOp(t *rapid.T, allowReturn bool) byte {
@@ -70,7 +77,7 @@ func Push(t *rapid.T, o ScriptOpts) []byte {
 		minLen = 1
 	}
 	switch {
-	case o.Big && k == 0:
+	case o.Big && Rare(t, "push_big"):
 		n = rapid.SampledFrom([]int{65535, 65536, 65537}).Draw(t, "push_len")
 	case k < 900:
 		n = rapid.SampledFrom([]int{minLen, 2, 3, 4, 5, 20, 32, 33, 65, 74, 75, 76, 77, 255, 256, 257}).Draw(t, "push_len")
